@@ -4,3 +4,8 @@
 #pragma once
 #include "common.hpp"
 #include "c01.hpp"
+#include "c04.hpp"
+#include "c05.hpp"
+#include "c06.hpp"
+#include "c15.hpp"
+#include "c18.hpp"
